@@ -351,6 +351,9 @@ impl<M: Machine> World<M> {
             idx[0].iter().map(|&i| self.tapes[0][i as usize]).collect(),
             idx[1].iter().map(|&i| self.tapes[1][i as usize]).collect(),
         ];
+        if NEIGHBOUR.with(|n| n.get()) {
+            neighbour_tenant(M::FLT, [&recs[0], &recs[1]]);
+        }
         let slot = self.slots[dst as usize].as_mut().unwrap();
         let out = M::deliver(&mut slot.st, style, stream, [&recs[0], &recs[1]]);
         if out.is_ok() {
@@ -402,7 +405,7 @@ impl<M: Machine> World<M> {
 /// delivery styles in which the already accumulated state is the right-hand operand of a merge
 pub fn style_puts_acc_right<M: Machine>(style: u8) -> bool {
     match (M::FAMILY, M::TRANSFORM, M::STREAMS) {
-        (Family::Sum, _, _) => style % 6 == 3,
+        (Family::Sum, _, _) => style % 8 == 3,
         (Family::Mean, Transform::Diff, _) => style % 8 == 6,
         (Family::Mean, _, _) => style % 10 == 6,
         (Family::Unpaired, _, _) => matches!(style % 10, 4 | 8),
